@@ -564,8 +564,8 @@ func (s *Sys) fireFaults() bool {
 			due = s.Eff.N >= f.N
 		case "step":
 			due = s.K.StepN >= f.N
-		case "write":
-			due = true // armed immediately: the runtime counts writes itself
+		case "write", "topo":
+			due = true // armed immediately: the runtime / the fake topo count their calls themselves
 		case "devset":
 			due = true // armed immediately: the device counts its Sets itself
 		case "after-devset":
@@ -590,7 +590,7 @@ func (s *Sys) fireFaults() bool {
 		if !due {
 			continue
 		}
-		if !s.Inc.up && f.Kind != "op-unavail" && f.Kind != "op-acklost" && f.Kind != "dev-error" && f.Kind != "dev-drop" {
+		if !s.Inc.up && f.Kind != "op-unavail" && f.Kind != "op-acklost" && f.Kind != "dev-error" && f.Kind != "dev-drop" && f.Kind != "topo-unavail" && f.Kind != "topo-acklost" {
 			continue
 		}
 		f.fired = true
@@ -644,6 +644,17 @@ func (s *Sys) fireFaults() bool {
 				n = s.RT.Writes + 1 + f.Burst
 			}
 			s.RT.OpFaults[n] = strings.TrimPrefix(f.Kind, "op-")
+		case "topo-unavail", "topo-acklost":
+			if s.Topo.Faults == nil {
+				s.Topo.Faults = map[int]string{}
+			}
+			b := f.Burst
+			if b < 1 {
+				b = 1
+			}
+			for j := 0; j < b; j++ {
+				s.Topo.Faults[f.N+j] = strings.TrimPrefix(f.Kind, "topo-")
+			}
 		case "stall":
 			s.K.Trace = append(s.K.Trace, "fault/stall")
 			s.K.Stat("fault/stall")
@@ -709,6 +720,7 @@ func (s *Sys) Run() bool {
 	heal := func() {
 		s.Healing = true
 		s.noFault = true
+		s.Topo.Faults = nil
 		s.K.Fair = true
 		s.K.Trace = append(s.K.Trace, "heal")
 	}
